@@ -28,6 +28,13 @@ pub trait Controller: Send + Sync + 'static {
   fn unpark(&self, target: ThreadId);
   /// Should this `compare_exchange_weak` fail spuriously?
   fn weak_cas_fails(&self) -> bool;
+  /// A thread spawned by library code asks to become a managed thread; returns
+  /// once it may run (true), or false if the controller does not take it.
+  fn adopt(&self) -> bool {
+    false
+  }
+  /// An adopted thread is about to end.
+  fn retire(&self) {}
 }
 
 thread_local! {
@@ -128,4 +135,29 @@ pub fn set_clock_offset_nanos(v: u64) {
 
 pub fn advance_clock_nanos(d: u64) -> u64 {
   CLOCK_OFFSET_NANOS.fetch_add(d, Ordering::SeqCst) + d
+}
+
+/// Guard returned by [`adopt`]; the thread is managed until it is dropped.
+pub struct Adopted(Option<Arc<dyn Controller>>);
+
+/// First line of a thread that the library spawns itself (e.g. the cache's
+/// loader thread): hands the thread to the installed global controller.
+pub fn adopt() -> Adopted {
+  let g = GLOBAL.read().ok().and_then(|g| g.clone());
+  if let Some(c) = g {
+    if c.adopt() {
+      enter(c.clone());
+      return Adopted(Some(c));
+    }
+  }
+  Adopted(None)
+}
+
+impl Drop for Adopted {
+  fn drop(&mut self) {
+    if let Some(c) = self.0.take() {
+      leave();
+      c.retire();
+    }
+  }
 }
